@@ -120,6 +120,7 @@ def verifier_model(chk, model, hscan, cases, meta, out, corder):
     st = {"strings": 0, "sound_cert_true": 0, "complete_cert_true": 0, "outside_completeness_theorem_nul": 0, "fits_in_atom": 0,
           "model_scans_compared": 0, "model_scans_equal": 0, "sound_cert_false_xor": 0, "aimed_buffers": 0, "aimed_reproduce_known_finding": 0}
     aimed = []
+    chk.c01_info = {"unsound": set(), "equal": set()}
     for cid, tr, sr in zip(corder, tres, sres):
         src, strings, bufs = meta[cid]
         lines = out.get(cid, [])
@@ -135,6 +136,7 @@ def verifier_model(chk, model, hscan, cases, meta, out, corder):
                 st["sound_cert_true"] += 1
             elif m["xor"] is not None and f.get("xorkeys") == "false" and f.get("agree") == "true":
                 st["sound_cert_false_xor"] += 1
+                chk.c01_info["unsound"].add((cid, si))
                 aimed.append((cid, si, aimed_xor_buffers(text, m, atoms)))
             else:
                 chk.violation("cert:sound", "the certificate of scan_text_sound fails for string %d of %s: %s" % (si, src[:160], c[:200]),
@@ -164,6 +166,7 @@ def verifier_model(chk, model, hscan, cases, meta, out, corder):
                 st["model_scans_compared"] += 1
                 if impl == mod:
                     st["model_scans_equal"] += 1
+                    chk.c01_info["equal"].add((cid, bi, si))
                 else:
                     chk.violation("scanmodel:" + "+".join(sorted(k for k in ("nocase", "wide", "fullword", "ascii") if m[k]) + (["xor"] if m["xor"] is not None else [])),
                                   "text string %r %s on a %d-byte buffer: implementation records %s, the scan model (stored automaton + literal verifier) %s"
@@ -479,6 +482,7 @@ def run(chk):
     nontriv = set()
     agree = 0
     total = 0
+    deferred = []
     dist = {"strings": 0, "nocase": 0, "wide": 0, "xor": 0, "fullword": 0, "with_matches": 0, "multi_variant_offsets": 0}
     for cid, _ in cases:
         src, strings, bufs = meta[cid]
@@ -531,8 +535,13 @@ def run(chk):
                     if kind == "missed" and "extra" not in bad and 0 in text and m["wide"] and m["fullword"] and (m["ascii"] or m["xor"] is not None):
                         # ascii and wide forms of a string with NUL bytes overlapping at one offset: the form tried first decides (known finding)
                         key = "nul-string-ascii-wide-fullword"
-                    chk.violation(key,
-                                  "text string %r %s on a %d-byte buffer: %s" % (text, rulegen.mods_to_words(m), len(b), bad), replay)
+                    msg = "text string %r %s on a %d-byte buffer: %s" % (text, rulegen.mods_to_words(m), len(b), bad)
+                    if m["xor"] is not None and kind in ("extra", "lenkey"):
+                        # decided after the certificates are known: a string whose key certificate fails and whose scan the model predicts
+                        # exactly is the known finding xor-key-outside-range
+                        deferred.append((cid, bi, si, key, msg, replay))
+                    else:
+                        chk.violation(key, msg, replay)
                 else:
                     agree += 1
                 if sp:
@@ -543,6 +552,12 @@ def run(chk):
     # ---- the verifier / scan model (Model/Verify.v): certificates of scan_text_sound / scan_text_complete on every image string,
     # and the model's match list (offset, length, key) must be EQUAL to the implementation's
     vstat = verifier_model(chk, model, hscan, cases, meta, out, corder)
+    info = getattr(chk, "c01_info", {"unsound": set(), "equal": set()})
+    for cid, bi, si, key, msg, replay in deferred:
+        if (cid, si) in info["unsound"] and (cid, bi, si) in info["equal"]:
+            chk.violation("xor-key-outside-range", msg + " (the key certificate of this string fails and the scan model predicts exactly these matches)", replay)
+        else:
+            chk.violation(key, msg, replay)
     bstat = base64_part(chk, model, hscan)
     chk.note(evaluations=total, distinct_nontrivial=len(nontriv), traces_validated_against_impl=agree, input_distribution=dist,
              verifier_model=vstat, base64=bstat,
